@@ -1534,6 +1534,11 @@ func checkKeyAgreement(r *Report, p *Prog) {
 				k.format, k.arg = "?", fc.AP(keyArg)
 				for _, o := range rg.Origins(RV{V: keyArg, C: xi.C}) {
 					k.format, k.arg = storeKeyOf(rg.Ctx(a, o.C), o.V, 0)
+					// a field of a local record names the field, not the moment it is read: the datum is what was last
+					// stored there (the body's name before `user.Name = r.PathValue("id")`, the path's name after it)
+					if av := storeKeyArg(o.V); av != nil {
+						k.arg = keyDatumAt(rg.Ctx(a, o.C), av, k.arg)
+					}
 				}
 				coll := strings.TrimSuffix(k.format, "%s")
 				if perFn[coll] == nil {
